@@ -648,6 +648,16 @@ Fixpoint hydrate_seq (root : dom) (l : list view) (h : hstate) : option (list st
 Definition hydrate_from (root : dom) (v : view) : option (stree * hstate) :=
   hydrate root v {| h_cur := []; h_pos := FirstChild; h_ops := [] |}.
 
+(** what the application does: parse the server's markup into the root element, then hydrate *)
+Definition hydrate_parsed (v : view) : option (dom * stree * hstate) :=
+  match parse (render v) with
+  | Some f => match hydrate_from (root_of f) v with
+              | Some (st, h) => Some (root_of f, st, h)
+              | None => None
+              end
+  | None => None
+  end.
+
 (** the nodes a state is bound to, in binding order *)
 Fixpoint bound (s : stree) : list path :=
   let seq := fix seq (l : list stree) : list path :=
